@@ -110,6 +110,41 @@ def _integer_lex(text):
     return orc.result()
 
 
+def timestamp_lex(maxn: int, n: int, c0: int, c1: int, c2: int, c3: int) -> str:
+    """
+    TimestampConverter.to_py(text) returns  =>  text is an xsd:unsignedLong literal (pm:Timestamp) and the result is that
+    many milliseconds; a literal is not rejected. Same text pool as integer_lex.
+    pre: 0 <= maxn <= 4
+    pre: 0 <= n <= maxn
+    pre: 0 <= c0 < 13
+    pre: 0 <= c1 < 13
+    pre: 0 <= c2 < 13
+    pre: 0 <= c3 < 13
+    post: __return__ == 'ok'
+    """
+    n = bpick(n, 5)
+    sel = [bpick(c, len(INT_POOL)) if i < n else 0 for i, c in enumerate((c0, c1, c2, c3))]
+    with untraced():
+        text = ''.join(INT_POOL[i] for i in sel[:n])
+        orc = Oracle()
+        try:
+            exp = int_value(text)
+            if exp is not None and exp < 0:
+                exp = None        # unsignedLong
+            try:
+                v = dc.TimestampConverter.to_py(text)
+            except ValueError:
+                orc.check(exp is None, 'timestamp_literal_rejected')
+                return orc.result()
+            if exp is None:
+                orc.fail('timestamp_accepts_non_lexical')
+                return orc.result()
+            orc.check(round(v * 1000) == exp, 'timestamp_wrong_value')
+        except Exception as ex:  # noqa: BLE001
+            return exc_result(orc, ex, 'timestamp_lex')
+        return orc.result()
+
+
 BOOL_PROBES = ('TRUE', 'True', 'FALSE', 'yes', 'on', '01', '1.0', 'truee', 'tru', 't', ' true', 'false ', '\ttrue\n', 'true', '0')
 
 
@@ -337,7 +372,7 @@ def duration_parse_runs(h: int, m: int, s: int, dg: int, a: int, b: int, c: int,
 
 # ------------------------------------------------------------------------------------------------ date / time values
 
-DT_SECONDS = (0.0, 5.5, 59.999999, 7.000001, 30.25)
+DT_SECONDS = (0.0, 5.5, 59.999999, 7.000001, 30.25, 10, 0, 50, 11)      # incl. int seconds (the dataclass accepts them)
 TZ_LEXICAL = __import__('re').compile(r'^(Z|[+-](0\d|1[0-3]):[0-5]\d|[+-]14:00)?$')
 
 
@@ -407,12 +442,12 @@ def datetime_fields(kind: int, ssel: int, tzsel: int, ysel: int) -> str:
     The four value kinds (gYear, gYearMonth, date, dateTime, dateTime at end of day) x seconds pool x time zone (none, UTC,
     +01:30, -00:30, -14:00) x year pool (1, 1990, 12345, -44): str -> parse_date_time -> str round trip.
     pre: 0 <= kind < 5
-    pre: 0 <= ssel < 5
+    pre: 0 <= ssel < 9
     pre: 0 <= tzsel < 5
     pre: 0 <= ysel < 4
     post: __return__ == 'ok'
     """
-    kind, ssel, tzsel, ysel = bpick(kind, 5), bpick(ssel, 5), bpick(tzsel, 5), bpick(ysel, 4)
+    kind, ssel, tzsel, ysel = bpick(kind, 5), bpick(ssel, 9), bpick(tzsel, 5), bpick(ysel, 4)
     with untraced():
         orc = Oracle()
         try:
